@@ -7,6 +7,7 @@ from ..common import EPS, LINKAGES, pick, shard_count
 LD = np.longdouble
 
 META = {
+    'refill': True,      # cases presented in a reused buffer are followed by a refill of that buffer (runner)
     'rule': ('cases = curve (all families, plateau-rich ones over-weighted, n 6..60, thorough to 400) x interior knee subset of '
              'size 2..12 x 4 linkages x t = 10^U(-2.5,0) x ranking mode in {left, linear, right, hull} + the corner variant; the '
              'monitor on filter_clusters / filter_clusters_corners recomputes the clusters with the saved linkage, the scores with '
